@@ -227,7 +227,7 @@ func c17ZeroCase(x *c17Runner, in c17Input) {
 				bad("hash changes over a round trip", nil)
 			}
 		}
-		if _, isJ := v.(json.Marshaler); !isJ || in.Type == "merkleblock" {
+		if _, isJ := v.(json.Marshaler); !isJ || strings.HasPrefix(in.Type, "merkleblock") {
 			return
 		}
 		tj := fresh()
